@@ -298,6 +298,15 @@ class ParserX(rs.Parser):
         x = self.peek()
         if x.kind == "id" and x.text == "match":
             return self.match_()
+        if x.kind == "id" and x.text in rs.WIDTH and self.at("::", 1) and self.peek(2).kind == "id" \
+                and self.peek(2).text in ("BITS", "MAX") and not self.at("(", 3):
+            self.next(); self.next(); c = self.next()
+            w = rs.WIDTH[x.text]
+            if c.text == "BITS":
+                return N("lit", x.pos, v=w, suf="u32")
+            if x.text[0] == "u":
+                return N("lit", x.pos, v=2 ** w - 1, suf=x.text)
+            raise Unsupported("`%s::MAX`" % x.text, x.pos)
         return rs.Parser.primary(self, no_struct)
 
 
@@ -361,6 +370,9 @@ class FnTranslatorX(rs.FnTranslator):
         self.structs.update(fspec.get("structs", {}))
         self.self_calls = dict(unit.get("self_calls", {}))
         self.self_calls.update(fspec.get("self_calls", {}))
+        self.struct_calls = dict(unit.get("struct_calls", {}))
+        self.struct_calls.update(fspec.get("struct_calls", {}))
+        self.struct_skip = dict(unit.get("struct_skip", {}))
         self.holes = dict(fspec.get("cond_holes", {}))
         self.holes_used = set()
         for key, h in self.holes.items():
@@ -602,6 +614,18 @@ class FnTranslatorX(rs.FnTranslator):
             if not isinstance(t, TTuple) or e.i >= len(t.items):
                 self.err("tuple field `.%d` on %r" % (e.i, t), e)
             return proj(s, e.i, len(t.items)), t.items[e.i]
+        if k == "cast" and strip(e.e).kind == "mcall" and strip(e.e).name == "ceil" and "f32:log2:ceil" in self.absfns:
+            x = strip(strip(e.e).recv)
+            if x.kind == "mcall" and x.name == "log2" and strip(x.recv).kind == "cast":
+                inner = strip(x.recv)
+                f = self.absfns["f32:log2:ceil"]
+                v, vt = self.expr(inner.e, code, None)
+                target = self.ty(e.ty)
+                if not (inner.ty.kind == "tname" and inner.ty.name == "f32") or vt != self.ty_of_text(f["args"][0]) \
+                        or target != self.ty_of_text(f["ret"]):
+                    self.err("`(x as f32).log2().ceil() as T` with x : %r, T = %r (the spec declares %s → %s)"
+                             % (vt, target, f["args"][0], f["ret"]), e)
+                return "%s %s" % (f["lean"], atom(v)), target
         if k == "cast":
             target = self.ty(e.ty)
             if isinstance(target, TAbs):
@@ -629,6 +653,8 @@ class FnTranslatorX(rs.FnTranslator):
             self.err("closure outside the translated iterator methods", e)
         if k == "struct" and e.name in self.structs:
             want = [f for f, _ in self.structs[e.name]]
+            skip = self.struct_skip.get(e.name, [])
+            e = N("struct", e.pos, name=e.name, fields=[(f, x) for f, x in e.fields if f not in skip])
             names = [f for f, _ in e.fields]
             if names != want:
                 self.err("struct literal `%s` has fields %s, the spec (and the theorems) expect %s in this order"
@@ -693,6 +719,30 @@ class FnTranslatorX(rs.FnTranslator):
             key = "self." + ".".join(self.self_chain(recv)) + "." + nm
             if key in self.absfns:
                 return self.abs_call(key, e, code)
+        if nm in ("checked_shl", "wrapping_shl") and len(e.args) == 1:
+            l, lt = self.expr(e.recv, code, expected.elem if isinstance(expected, TOpt) else expected)
+            r, rt = self.expr(e.args[0], code, TInt("u32"))
+            if not isinstance(lt, TInt) or lt.signed or rt != TInt("u32"):
+                self.err("`%s` on %r by %r" % (nm, lt, rt), e)
+            if nm == "checked_shl":
+                return "Rs.checkedShl %d %s %s" % (lt.w, atom(l), atom(r)), TOpt(lt)
+            return "Rs.wrappingShl %d %s %s" % (lt.w, atom(l), atom(r)), lt
+        if nm == "unwrap_or" and len(e.args) == 1:
+            l, lt = self.expr(e.recv, code)
+            if not isinstance(lt, TOpt):
+                self.err("`.unwrap_or` on %r" % (lt,), e)
+            d, dt = self.expr(e.args[0], code, lt.elem)
+            if dt != lt.elem:
+                self.err("`.unwrap_or(%r)` on %r" % (dt, lt), e)
+            return "%s.getD %s" % (atom(l), atom(d)), lt.elem
+        if nm in ("into_iter", "iter") and not e.args and not isinstance(self.peek_type(e.recv), TOpaque):
+            l, lt = self.expr(e.recv, code)
+            if isinstance(lt, TSeq):
+                return l, TIter(lt.elem)
+        if recv.kind == "var" and isinstance(self.peek_type(recv), TRec):
+            key = "%s.%s" % (self.peek_type(recv).name, nm)
+            if key in self.struct_calls:
+                return self.struct_call(key, e, code)
         if nm == "fold" and len(e.args) == 2 and e.args[1].kind == "closure":
             return self.fold(e, code, expected)
         if nm == "all" and len(e.args) == 1 and e.args[0].kind == "closure":
@@ -798,6 +848,37 @@ class FnTranslatorX(rs.FnTranslator):
         t = self.tmp()
         code.bind(t, ("call", "%s.foldlM %s %s" % (atom(lst), atom(name + self.abs_args() + "".join(" " + v.lean for v in caps)), atom(init))))
         return t, acc_t
+
+    def struct_call(self, key, e, code):
+        """`v.method(args)` on a local variable `v` of a struct type of the spec, `method` a translated sibling function:
+        the fields it reads are passed, the fields it writes come back and `v` is rebuilt"""
+        f = self.struct_calls[key]
+        v = self.lookup(strip(e.recv).name, e)
+        rec = v.ty
+        names = [fn for fn, _ in rec.fields]
+        if len(f["args"]) != len(e.args):
+            self.err("`%s` called with %d arguments, the spec says %d" % (key, len(e.args), len(f["args"])), e)
+        parts = [proj(v.lean, names.index(fn), len(names)) for fn in f["fields_in"]]
+        for a, at in zip(e.args, f["args"]):
+            want = self.ty_of_text(at)
+            s_, t = self.expr(a, code, want)
+            if t != want:
+                self.err("argument of `%s` has type %r, the spec says %r" % (key, t, want), a)
+            parts.append(atom(s_))
+        outs = [self.tmp() for _ in f.get("writes", [])]
+        rt = self.ty_of_text(f["ret"]) if f.get("ret") else TUnit()
+        res = None
+        pat = list(outs)
+        if not isinstance(rt, TUnit):
+            res = self.tmp()
+            pat.append(res)
+        code.bind(tuple_pat(pat), ("call", f["lean"] + self.abs_args() + "".join(" " + atom(p_) for p_ in parts)))
+        if outs:
+            new = []
+            for i, fn in enumerate(names):
+                new.append(outs[f["writes"].index(fn)] if fn in f["writes"] else proj(v.lean, i, len(names)))
+            code.let(v.lean, "(" + ", ".join(new) + ")" if len(new) > 1 else new[0])
+        return (res, rt) if res is not None else ("()", rt)
 
     def peek_type(self, e):
         """type of a simple receiver expression (variables, fields) without emitting code; None when not simple"""
@@ -917,10 +998,10 @@ class FnTranslatorX(rs.FnTranslator):
         outs = [self.lookup(w, e).lean for w in f.get("writes", [])]
         rt = self.ty_of_text(f["ret"]) if f.get("ret") else TUnit()
         if isinstance(rt, TUnit):
-            code.bind(tuple_pat(outs), ("call", f["lean"] + "".join(" " + p for p in parts)))
+            code.bind(tuple_pat(outs), ("call", f["lean"] + self.abs_args() + "".join(" " + p for p in parts)))
             return "()", rt
         t = self.tmp()
-        code.bind(tuple_pat(outs + [t]), ("call", f["lean"] + "".join(" " + p for p in parts)))
+        code.bind(tuple_pat(outs + [t]), ("call", f["lean"] + self.abs_args() + "".join(" " + p for p in parts)))
         return t, rt
 
     # ---------------------------------------------------------------- match
@@ -1098,6 +1179,10 @@ class FnTranslatorX(rs.FnTranslator):
                 return
             if isinstance(self.peek_type(e.recv), TOpaque):
                 self.opaque_call(e, code)
+                return
+            if recv.kind == "var" and isinstance(self.peek_type(recv), TRec) \
+                    and "%s.%s" % (self.peek_type(recv).name, e.name) in self.struct_calls:
+                self.struct_call("%s.%s" % (self.peek_type(recv).name, e.name), e, code)
                 return
             if e.name in ("push", "push_back") and len(e.args) == 1 and recv.kind == "index" and recv.idx.kind != "range":
                 root = self._lhs_root(recv.base)
@@ -1496,7 +1581,20 @@ def restrict(src, f):
     v = View()
     v.__dict__.update(src.__dict__)
     cut = ms[0].end()
-    v.code = re.sub(r"[^\n]", " ", src.code[:cut]) + src.code[cut:]
+    # … and only up to the end of the block (`impl … { … }`) that follows the text
+    end = len(src.code)
+    b0 = src.code.find("{", cut)
+    if b0 >= 0:
+        depth = 0
+        for i in range(b0, len(src.code)):
+            if src.code[i] == "{":
+                depth += 1
+            elif src.code[i] == "}":
+                depth -= 1
+                if depth == 0:
+                    end = i + 1
+                    break
+    v.code = re.sub(r"[^\n]", " ", src.code[:cut]) + src.code[cut:end] + re.sub(r"[^\n]", " ", src.code[end:])
     v.line_of = src.line_of
     v.fn_body = lambda rx_, what: type(src).fn_body(v, rx_, what)
     return v
